@@ -1,6 +1,7 @@
 CONSTANTS NthYears = {1900, 1999, 2000, 2001, 2004, 2015, 2016, 2017, 2018, 2019, 2020, 2021, 2022, 2023, 2024, 2100, 2299}
           Days <- ThoroughDays
           GenDays <- QuickGenDays
+          GenFams = {"gmon", "gnth", "gnum", "gnumb", "gnp", "gper", "gfmt"}
 INIT Init
 NEXT Next
 INVARIANT MonthLaws
